@@ -353,8 +353,12 @@ def make_classes(ctx: Ctx) -> Dict[str, type]:
                 is_buy = op.get("side", "b") == "b"
                 ttl = op.get("ttl")
                 typ = op.get("typ")
+                vol_ = int(op.get("vol", 1))
                 if typ:
                     is_buy, ttl = typed_fields(typ, is_buy, ttl)
+                    if typ == "np":
+                        import numpy as _np2
+                        vol_ = _np2.int64(vol_)  # sizes computed with NumPy
                 if k == "limit":
                     price = self._price(op, market)
                     if price != price:  # NaN only; zero and negative prices are accepted by pams (with a warning)
@@ -363,10 +367,10 @@ def make_classes(ctx: Ctx) -> Dict[str, type]:
                         import numpy as _np
                         price = _np.float64(price)
                     o = Order(agent_id=self.agent_id, market_id=market.market_id, is_buy=is_buy,
-                              kind=LIMIT_ORDER, volume=int(op.get("vol", 1)), price=price, ttl=ttl)
+                              kind=LIMIT_ORDER, volume=vol_, price=price, ttl=ttl)
                 else:
                     o = Order(agent_id=self.agent_id, market_id=market.market_id, is_buy=is_buy,
-                              kind=MARKET_ORDER, volume=int(op.get("vol", 1)), ttl=ttl)
+                              kind=MARKET_ORDER, volume=vol_, ttl=ttl)
                 o = cloned(o, typ)
                 self.mine.append(o)
                 mon.on_built(self, o)
